@@ -146,3 +146,9 @@ def run(ctx: Ctx) -> None:
 
 def replay(ctx: Ctx, case: Dict[str, Any]) -> None:
     run_case(ctx, case)
+
+
+def blend_case(rng) -> Dict[str, Any]:
+    case = gen.overlap_compose_case(rng)
+    case["op"] = "compose"
+    return case
